@@ -330,7 +330,7 @@ func chanVerdict(lines []logLine, tag string, offs []time.Time, from time.Time) 
 		}
 		return "chan", e.line
 	}
-	return "chan-open", ""
+	return "none", ""
 }
 
 // untracked: did the server log the result of this job as "un-tracked" around the time Task
@@ -338,7 +338,7 @@ func chanVerdict(lines []logLine, tag string, offs []time.Time, from time.Time) 
 func untracked(lines []logLine, tag string, id uint16, at time.Time) bool {
 	k := fmt.Sprintf("un-tracked Job %d!", id)
 	for _, l := range lines {
-		if l.lv == 'W' && strings.Contains(l.s, tag) && strings.Contains(l.s, k) && l.t.After(at.Add(-50*time.Millisecond)) && l.t.Before(at.Add(10*time.Millisecond)) {
+		if l.lv == 'W' && strings.Contains(l.s, tag) && strings.Contains(l.s, k) && l.t.After(at.Add(-5*time.Millisecond)) && l.t.Before(at.Add(200*time.Millisecond)) {
 			return true
 		}
 	}
@@ -904,6 +904,9 @@ func runHist(h Hist, idSeed uint64) (res HRes) {
 				job *c2.Job
 				err error
 			)
+			// before the call: under load the packet can be sent, and lost in a channel end,
+			// before Task has even returned
+			j.tTask = time.Now()
 			switch op.Kind {
 			case "task":
 				n := &com.Packet{ID: echoID, Device: c.ss.ID}
@@ -935,7 +938,6 @@ func runHist(h Hist, idSeed uint64) (res HRes) {
 					}
 				}
 			}
-			j.tTask = time.Now()
 			j.inChan = chanOn[op.C] || c2.VerifC05State(c.ss)&stChannel != 0 || c2.VerifC05State(c.sess)&stChannel != 0
 			r.lastEv[op.C] = time.Now()
 			r.jobs = append(r.jobs, j)
@@ -1019,12 +1021,19 @@ func runHist(h Hist, idSeed uint64) (res HRes) {
 				kind = "chan"
 				untr bool
 			)
+			if h.Profile == "none" {
+				// which channel end (if any) took the packet?  (the log knows about channels the
+				// 2 ms poller missed: SetChannel(true); SetChannel(false) back to back still opens one)
+				kind, why = chanVerdict(logLines, tag, offs[j.c], j.tTask)
+				if kind != "none" {
+					j.inChan = true
+				} else if j.inChan {
+					kind = "chan-open"
+				}
+			}
 			switch {
 			case untracked(logLines, tag, j.id, j.tTask):
 				untr = true
-			case j.inChan && h.Profile == "none":
-				// which channel end (if any) took the packet?
-				kind, why = chanVerdict(logLines, tag, offs[j.c], j.tTask)
 			case !j.inChan:
 				// polling: an exchange whose connection failed drops its packets; a history with
 				// such a fault is outside the property (no faults in its quantifier)
